@@ -1,8 +1,8 @@
 (* Props/C01.v — conversions preserve the tensor. Only statements, `exact`, Print Assumptions. *)
 From Coq Require Import List Arith Bool ZArith Ring.
 From PV Require Import Base.Index Base.Perm Base.Sum Np.Array Model.Sparse Model.Repr Model.C07Ops Model.C01Conv
-  Model.C01Unique Model.C01Coo Model.C01Ttm Proofs.C01Proofs Proofs.C01Kruskal Proofs.C01Tucker Proofs.C01Unique
-  Proofs.C01Converse Proofs.C01Coo Proofs.C01Ttm.
+  Model.C01Unique Model.C01Coo Model.C01Ttm Model.C01W3 Proofs.C01Proofs Proofs.C01Kruskal Proofs.C01Tucker Proofs.C01Unique
+  Proofs.C01Converse Proofs.C01Coo Proofs.C01Ttm Proofs.C01W3.
 From Coq Require Import Permutation.
 Import ListNotations.
 
@@ -361,3 +361,109 @@ Example C01_example_tucker_impl :
   ttensor_full_impl 0%Z Z.add Z.mul Tk = ttensor_full 0%Z Z.add Z.mul Tk /\
   den_dense 0%Z (ttensor_full_impl 0%Z Z.add Z.mul Tk) [2; 1; 3] = 245%Z.
 Proof. split; reflexivity. Qed.
+
+(* ---------------------------------------------------------------------------------------------------------
+   Third wave (Model/C01W3.v): the conversions that were tied by correspondence only. *)
+Section C01w3.
+Variable V : Type.
+Variables (v0 v1 : V) (vadd vmul vsub : V -> V -> V) (vopp : V -> V) (isz : V -> bool).
+Hypothesis Vring : ring_theory v0 v1 vadd vmul vsub vopp (@eq V).
+Hypothesis isz_spec : forall v, isz v = true <-> v = v0.
+
+(* ktensor.to_tenmat = full().to_tenmat(rdims, cdims, cdims_cyclic), for every admissible request form: the matrix holds
+   sum_r w_r prod_n A_n[i_n, r] at (sub2ind i[r], sub2ind i[c]) and converts back to the dense Kruskal tensor *)
+Theorem C01_kruskal_to_tenmat : forall (K : ktensor V) rd cd cy,
+  rows_ok V (krank K) (kfactors K) -> 1 <= length (kfactors K) -> request_ok (length (kfactors K)) rd cd ->
+  exists r c M, gather_wrap_dims (length (kshape K)) rd cd cy = Some (r, c) /\ is_perm (r ++ c) (length (kshape K)) /\
+    ktensor_to_tenmat v0 vadd vmul K rd cd cy = Some M /\ tm_r M = r /\ tm_c M = c /\ tm_tshape M = kshape K /\
+    wf_dense (tm_data M) /\ dshape (tm_data M) = [size (pick 0 r (kshape K)); size (pick 0 c (kshape K))] /\
+    (forall i, inb (kshape K) i = true -> den_tenmat v0 M i = den_k v0 v1 vadd vmul K i) /\
+    tenmat_to_tensor v0 M = ktensor_full_spec v0 v1 vadd vmul K.
+Proof. exact (ktensor_to_tenmat_correct V v0 v1 vadd vmul vsub vopp Vring). Qed.
+
+(* ktensor.double / ttensor.double / sumtensor.double = full().double(): the arrays of C01_kruskal / C01_tucker_impl / C01_sum *)
+Theorem C01_double_aliases :
+  (forall K : ktensor V, rows_ok V (krank K) (kfactors K) -> 1 <= length (kfactors K) ->
+     ktensor_double v0 vadd vmul K = ktensor_full_impl v0 vadd vmul K /\
+     ktensor_double v0 vadd vmul K = Some (ktensor_full_spec v0 v1 vadd vmul K)) /\
+  (forall T : ttensor V, wf_dense (tcore T) -> length (dshape (tcore T)) = length (tfactors T) ->
+     ttensor_double v0 vadd vmul T = ttensor_full_impl v0 vadd vmul T /\
+     wf_dense (ttensor_double v0 vadd vmul T) /\ dshape (ttensor_double v0 vadd vmul T) = tshape T /\
+     forall i, den_dense v0 (ttensor_double v0 vadd vmul T) i = den_t v0 v1 vadd vmul T i) /\
+  (forall s (parts : list (part V)), parts <> [] -> Forall (part_ok V v0 v1 vadd vmul s) parts ->
+     sum_double v0 v1 vadd vmul parts = sum_full v0 v1 vadd vmul parts /\
+     exists R, sum_double v0 v1 vadd vmul parts = Some R /\ wf_dense R /\ dshape R = s /\
+       forall i, inb s i = true -> den_dense v0 R i = den_sum v0 vadd (map (part_den v0 v1 vadd vmul) parts) i).
+Proof. exact (double_aliases_correct V v0 v1 vadd vmul vsub vopp Vring). Qed.
+
+(* sptenmat(subs, vals, rdims, cdims, tshape, copy=False): the same argument checks; the arguments are stored as given
+   (any order, stored zeros kept); copy=True stores the normal form (C01_unique) of exactly this object, and the same
+   object when the triples are strictly sorted and zero-free; the object converts back to a sparse tensor with in-bounds
+   (for distinct positions: distinct) subscripts whose to_sptenmat is that object, with the same array through
+   to_sptensor and full *)
+Theorem C01_sptenmat_nocopy : forall subs vals rd cd ts M, stm_ctor_nocopy subs vals rd cd ts = Some M ->
+  length subs = length vals -> Forall (fun rc => length rc = 2) subs ->
+  exists r c, gather_wrap_dims (length ts) rd cd None = Some (r, c) /\ is_perm (r ++ c) (length ts) /\
+    M = mkSTM subs vals r c ts /\
+    Forall (fun rc => inb (stm_shape M) rc = true) (stm_subs M) /\
+    stm_ctor vadd isz (Some subs) (Some vals) rd cd ts = Some (stm_norm vadd isz M) /\
+    (ssorted subs -> Forall (fun v => isz v = false) vals -> stm_ctor vadd isz (Some subs) (Some vals) rd cd ts = Some M) /\
+    let S := sptenmat_to_sptensor M in
+    sshape S = ts /\ Forall (fun j => inb ts j = true) (ssubs S) /\ svals S = vals /\ nnz S = length subs /\
+    (NoDup subs -> NoDup (ssubs S)) /\
+    to_sptenmat S r c = Some M /\
+    (forall i, inb ts i = true -> den_sp v0 S i = den_sptenmat v0 M i) /\
+    (forall i, inb ts i = true -> den_tenmat v0 (sptenmat_full v0 M) i = den_sptenmat v0 M i).
+Proof. exact (stm_ctor_nocopy_correct V v0 v1 vadd vmul vsub vopp isz Vring isz_spec). Qed.
+
+(* tenmat(..., copy=False): the checks and the stored matrix of copy=True — C01_tenmat_guard / C01_tenmat_converse apply *)
+Theorem C01_tenmat_nocopy : forall (data : option (dense V)) rd cd ts, tm_ctor_nocopy data rd cd ts = tm_ctor data rd cd ts.
+Proof. exact (tm_ctor_nocopy_correct V). Qed.
+
+(* sptensor.ttm in one mode n as the code runs it — to_sptenmat([n], "t") with the sorting constructor, the scipy view,
+   Z = X @ U.T, sptenmat.from_array(Z, rdims, cdims, new shape), to_sptensor, to_tensor — is the mode-n product of the
+   densified tensor: Y[i] = sum_j U[i_n, j] * S[i with n := j] *)
+Theorem C01_sptensor_ttm : forall (G : sparse V) (U : matrix (V:=V)) n, wf_sp isz G -> n < length (sshape G) ->
+  sp_ttm v0 vadd vmul isz G U n = Some (ttm_mode v0 vadd vmul (full v0 G) U n).
+Proof. exact (sp_ttm_correct V v0 v1 vadd vmul vsub vopp isz Vring isz_spec). Qed.
+
+(* ttensor.full() with a SPARSE core as the code runs it (sptensor.ttm in mode 0 — its result is dense — then tensor.ttm
+   for the modes 1..N-1): the Tucker array sum_j G[j] prod_n U_n[i_n, j_n] of the stored core *)
+Theorem C01_tucker_sparse_core : forall (G : sparse V) (Us : list (matrix (V:=V))),
+  wf_sp isz G -> length (sshape G) = length Us -> Us <> [] ->
+  let T := mkT (full v0 G) Us in
+  ttensor_full_spcore v0 vadd vmul isz G Us = Some (ttensor_full v0 vadd vmul T) /\
+  wf_dense (ttensor_full v0 vadd vmul T) /\ dshape (ttensor_full v0 vadd vmul T) = tshape T /\
+  (forall j, den_dense v0 (tcore T) j = den_sp v0 G j) /\
+  forall i, den_dense v0 (ttensor_full v0 vadd vmul T) i = den_t v0 v1 vadd vmul T i.
+Proof. exact (ttensor_full_spcore_correct V v0 v1 vadd vmul vsub vopp isz Vring isz_spec). Qed.
+End C01w3.
+
+Print Assumptions C01_kruskal_to_tenmat.
+Print Assumptions C01_double_aliases.
+Print Assumptions C01_sptenmat_nocopy.
+Print Assumptions C01_tenmat_nocopy.
+Print Assumptions C01_sptensor_ttm.
+Print Assumptions C01_tucker_sparse_core.
+
+(* non-vacuity *)
+Example C01_example_w3 :
+  (* Kruskal 2x3 of rank 2 matricised with the transposed single-mode convention: rows = mode 1, column = mode 0 *)
+  let K := mkK [2; 3]%Z [[[1; 2]; [3; 4]]; [[5; 6]; [7; 8]; [9; 1]]]%Z in
+  option_map (fun M => (tm_r M, tm_c M, dshape (tm_data M), ddata (tm_data M)))
+    (ktensor_to_tenmat 0%Z Z.add Z.mul K (Some [0]) None (Some CycT))
+    = Some ([1], [0], [3; 2], [46; 62; 24; 102; 138; 66]%Z) /\
+  ktensor_double 0%Z Z.add Z.mul K = Some (mkDense [2; 3] [46; 102; 62; 138; 24; 66]%Z) /\
+  (* copy=False keeps the triples as given (unsorted, a stored zero); copy=True sorts and drops the zero *)
+  stm_ctor_nocopy [[1; 2]; [0; 1]; [1; 0]] [5; 0; 7]%Z (Some [0]) (Some [1]) [2; 3]
+    = Some (mkSTM [[1; 2]; [0; 1]; [1; 0]] [5; 0; 7]%Z [0] [1] [2; 3]) /\
+  stm_ctor Z.add (Z.eqb 0) (Some [[1; 2]; [0; 1]; [1; 0]]) (Some [5; 0; 7]%Z) (Some [0]) (Some [1]) [2; 3]
+    = Some (mkSTM [[1; 0]; [1; 2]] [7; 5]%Z [0] [1] [2; 3]) /\
+  stm_ctor_nocopy [[2; 0]] [1%Z] (Some [0]) (Some [1]) [2; 3] = None /\
+  (* a 2x1x2 sparse core stored in reversed order, three factor matrices *)
+  let G := mkSp [2; 1; 2] [[1; 0; 1]; [0; 0; 1]; [0; 0; 0]] [4; 1; 2]%Z in
+  let Us := [[[1; 2]; [3; 4]; [0; 5]]; [[5]; [7]]; [[1; 0]; [2; 1]; [0; 3]; [1; 1]]]%Z in
+  sp_ttm 0%Z Z.add Z.mul (Z.eqb 0) G [[1; 2]; [3; 4]; [0; 5]]%Z 0 = Some (mkDense [3; 1; 2] [2; 6; 0; 9; 19; 20]%Z) /\
+  ttensor_full_spcore 0%Z Z.add Z.mul (Z.eqb 0) G Us = Some (ttensor_full 0%Z Z.add Z.mul (mkT (full 0%Z G) Us)) /\
+  option_map (fun D => den_dense 0%Z D [2; 1; 3]) (ttensor_full_spcore 0%Z Z.add Z.mul (Z.eqb 0) G Us) = Some 140%Z.
+Proof. repeat split; vm_compute; reflexivity. Qed.
